@@ -269,8 +269,8 @@ pub fn generate(seed: u64, thorough: bool, mode: &str) -> Vec<String> {
     let p = match (mode, thorough) {
         ("junk", false) => GenParams { grammars: 50, max_k: 3, exhaustive_len: 3, exhaustive_cap: 80, sentences: 12, styled: true, all_opts: false, junk: true, keep_cyclic: false },
         ("junk", true) => GenParams { grammars: 600, max_k: 4, exhaustive_len: 4, exhaustive_cap: 240, sentences: 30, styled: true, all_opts: false, junk: true, keep_cyclic: false },
-        ("opts", false) => GenParams { grammars: 25, max_k: 2, exhaustive_len: 3, exhaustive_cap: 40, sentences: 6, styled: false, all_opts: true, junk: false, keep_cyclic: false },
-        ("opts", true) => GenParams { grammars: 150, max_k: 3, exhaustive_len: 4, exhaustive_cap: 120, sentences: 12, styled: false, all_opts: true, junk: false, keep_cyclic: false },
+        ("opts", false) => GenParams { grammars: 25, max_k: 2, exhaustive_len: 3, exhaustive_cap: 40, sentences: 6, styled: true, all_opts: true, junk: false, keep_cyclic: false },
+        ("opts", true) => GenParams { grammars: 150, max_k: 3, exhaustive_len: 4, exhaustive_cap: 120, sentences: 12, styled: true, all_opts: true, junk: false, keep_cyclic: false },
         ("styled", false) => GenParams { grammars: 60, max_k: 2, exhaustive_len: 3, exhaustive_cap: 60, sentences: 10, styled: true, all_opts: false, junk: false, keep_cyclic: false },
         ("styled", true) => GenParams { grammars: 500, max_k: 3, exhaustive_len: 4, exhaustive_cap: 200, sentences: 20, styled: true, all_opts: false, junk: false, keep_cyclic: false },
         (_, false) => GenParams { grammars: 120, max_k: 3, exhaustive_len: 4, exhaustive_cap: 150, sentences: 10, styled: false, all_opts: false, junk: false, keep_cyclic: false },
